@@ -114,10 +114,19 @@ func c18Shape() (n, bad int) {
 
 func c18Run(i, n, bad int) {
 	chain := c18Chain(n, bad)
-	// repeated fields on the path: the element alone, or with empty sibling elements before / after / around it
-	sib := verifChoose("siblings", 4)
+	// repeated fields on the path: the element alone, with empty sibling elements before / after /
+	// around it, or with a second copy of the same sub-path (holding its own invalid failure) before / after
+	sib := verifChoose("siblings", 6)
 	verifReachIf(sib != 0, "repeated-field-with-sibling-elements")
-	root := c18Build(i, chain, sib)
+	var chain2 *c18Failure
+	if sib >= 4 {
+		if !c18HasRepeated(i) {
+			verifAssume(false) // no repeated field on this path: nothing to duplicate
+		}
+		chain2 = c18Chain(1, 0)
+		verifReach("repeated-field-with-two-invalid-elements")
+	}
+	root := c18Build(i, chain, sib, chain2)
 	verifAssert(root != nil, "obligation-materialised")
 	changed, err := RepairInvalidUTF8(root)
 	verifAction(c18Path(i))
@@ -131,7 +140,10 @@ func c18Run(i, n, bad int) {
 		return
 	}
 	verifAssert(err == nil, "no-error-within-supported-depth:"+c18Path(i))
-	verifAssert(changed == (bad >= 0 && bad < n), "changed-iff-some-message-was-invalid:"+c18Path(i))
+	verifAssert(changed == ((bad >= 0 && bad < n) || chain2 != nil), "changed-iff-some-message-was-invalid:"+c18Path(i))
+	if chain2 != nil {
+		c18CheckChain(chain2, 1, c18Path(i)+"(second element)")
+	}
 	if bad >= 0 {
 		verifReach("invalid-message-on-path")
 	}
